@@ -19,6 +19,7 @@ pub mod c11;
 pub mod c12;
 pub mod c13;
 pub mod c14;
+pub mod c15;
 pub mod c17;
 pub mod c18;
 pub mod c19;
@@ -44,6 +45,7 @@ pub fn all() -> Vec<PropDef> {
         c12::def(),
         c13::def(),
         c14::def(),
+        c15::def(),
         c17::def(),
         c18::def(),
         c19::def(),
